@@ -8,7 +8,7 @@ HARNESS_TIMEOUT = 600
 # the monitor (owner of a handled value, FIFO/exactly-once, one goroutine, one piece at a time,
 # everything executed) is what decides a VIOLATION.
 DISAGREE_IS_VIOLATION = False
-RULE = ("scripts against the real sche.MultiSelector/Sche driven step by step: 14 boundary histories (full channel, close with pending values, "
+RULE = ("scripts against the real sche.MultiSelector/Sche driven step by step: 13 boundary histories (full channel, close with pending values, "
         "dead selector dropped, double registration, Post after Stop, 9/10/11 registrations without the consumer running, the selector layout of a service); "
         "exhaustive: every sequence of length <= 3 (quick) / 5 (thorough) over {AddSelector x2, send x2, close, HandleOnce} on two channels; "
         "random: 4-80 ops (sends incl. on closed/full channels, HandleOnce, AddSelector while running incl. bursts of 9-13, close, bad ids), followed by HandleOnce until idle; "
@@ -37,7 +37,7 @@ TECHNIQUE = ("Coq proof (inductive invariant of the MultiSelector machine over a
 LEVEL_TEXT = ("PARTIAL. Proved in Coq, for all histories / all schedules, about the MODEL of sche.MultiSelector and of the single consumer loop: runnings[i] always owns cases[i] and every handler invocation "
               "is for a value from its own channel (C04_selector_index, C04_handler_owns_channel); per channel, what was enqueued = what was handed to handlers, in order, exactly once, + what is still queued "
               "(C04_task_accounting); a queued task on a registered live channel is always selectable and a draining consumer hands over everything (C04_task_enabled, C04_no_task_lost); with ONE consumer process "
-              "and arbitrary concurrent producers at most one task is running, run by the consumer, never an index panic, never parked on stale cases while work is pending (C04_one_at_a_time, C04_no_missed_wakeup). "
+              "and arbitrary concurrent producers at most one task is running, run by the consumer, never an index panic, never parked on stale cases while work is pending (C04_one_at_a_time, C04_no_missed_wakeup); the monitor applied to implementation traces accepts every trace of the model (C04_monitor_sound). "
               "C04_funnel_total (every work kind has a channel whose items all reach the consumer) is true BY CONSTRUCTION of the funnel table. "
               "NOT provable in any Gallina model and therefore MEASURED on the running code each run: that the real entry points (request/notify handler, response and timeout callback, timer callback, "
               "posted closure, local/global event, session add/remove/message) really go through those channels and really execute on the service's one loop goroutine, one at a time - "
